@@ -6,8 +6,13 @@ spec=json.load(open('/verif/spec/properties.json'))
 NA={
  "C12":"quantifies over goroutine schedules (data-race freedom, deadlock freedom, schedule independence): sequential pre/postconditions cannot express it and rvc has no model of goroutines, channels or sync; the sequential parts of these functions are decided under C07/C11",
 }
-PENDING="not claimed yet: no function of this property's cone is under a discharged contract so far (work in progress, DESIGN.md section 9)"
-hooks=subprocess.run(['git','-C','/repo','log','--format=%H','--','zz_contracts_verif.go','internal/zz_contracts_verif.go','roaring64/zz_contracts_verif.go','BitSliceIndexing/zz_contracts_verif.go'],capture_output=True,text=True).stdout.split()
+PENDING="no function of this property's cone carries a contract whose obligations the solvers discharge within the quick budget; see DESIGN.md section 0"
+LEVEL_NOTES={
+ "C01":"Proved: sorted-array kernels, every container x container pairing (new-result, in-place, cardinality/predicate forms), popcount helpers, conversions. NOT machine-checked: the Bitmap-level two-pointer drivers except where listed in the evidence, the induction from per-chunk to whole-bitmap results, the equality of cached cardinalities with the number of members of the view.",
+ "C02":"Proved: per-chunk point/range mutation of the three kinds, chunk-table edits, the Bitmap-level mutators listed in the evidence. NOT machine-checked: the induction over operation histories; Bitmap-level mutators not listed.",
+}
+hooks=subprocess.run('git -C /repo log --format=%H -- "*zz_*_verif.go"',shell=True,capture_output=True,text=True).stdout.split()
+spec.pop('_lemmas',None)
 checks=[]
 for p in props:
     pid=p['id']
@@ -21,7 +26,7 @@ for p in props:
      "replay_cmd_template":"./bin/rvc replay {path}",
      "engine":"rvc",
      "level_claimed":{"category":"proof","text":"Deductive: every listed function of /repo is verified against its contract (pre/postconditions, loop invariants, frame) by weakest-precondition style VC generation over the typed AST, one SMT query per named obligation, for all inputs and all iterations; loops without an invariant are unrolled and reported separately as bounded, never counted as proved. "+s.get("note",""),"design_ref":"DESIGN.md sections 2-4"},
-     "level_note":"Trusted: the rvc generator and its Go-subset semantics, go/types, the SMT solvers, stdlib axioms (math/bits), signed 64-bit arithmetic treated as mathematical, the counting meta-fact; functions of the property's cone that are not listed in the evidence are not verified. See evidence.assumptions for the per-run list.",
+     "level_note":LEVEL_NOTES.get(pid,"")+" Trusted: the rvc generator and its Go-subset semantics, go/types, the SMT solvers, stdlib axioms (math/bits), signed 64-bit arithmetic treated as mathematical, the counting meta-fact; functions of the property's cone that are not listed in the evidence are not verified. See evidence.assumptions for the per-run list.",
      "technique":"contract-based deductive verification (self-written VC generator over go/types AST + z3/cvc5)"
     })
 na=[]
@@ -30,7 +35,7 @@ for p in props:
     if pid in spec: continue
     na.append({"property_id":pid,"reason":NA.get(pid,PENDING)})
 m={"version":1,"setup_cmd":"./setup.sh",
- "hooks":{"guard":"verif","enable":"-tags verif (contracts and lemma procedures live in add-only zz_contracts_verif.go files)","baseline_off_cmd":"cd /repo && go test -vet=off -count=1 -timeout 25m ./...","source_commits":hooks,"add_only":True},
+ "hooks":{"guard":"verif","enable":"-tags verif (contracts and lemma procedures live in add-only zz_contracts_verif.go files)","baseline_off_cmd":". /verif/env.sh; cd /repo && go test -mod=mod -json -vet=off -count=1 -timeout 25m ./...","source_commits":hooks,"add_only":True},
  "engines":[{"name":"rvc","path":"/verif/rvc","serves_properties":sorted(spec.keys()),"kind_free_text":"self-written verification-condition generator for a Go subset (typed AST via go/packages), contracts as //@ comments + lemma procedures in build-tag-guarded files of /repo, obligations discharged by z3 5.1.0 / z3 4.8.12 / cvc5 1.0"}],
  "checks":checks,"not_applicable":na,
  "notes":"Every check regenerates its VCs from /repo's working tree. `./bin/rvc lemmas` re-proves the bit/popcount lemma library (run by each word-level check)."}
